@@ -15,12 +15,12 @@
          (_rings_filter, _connected_rings, _is_condensed_ring, _get_unique_chord) is modelled and tied by correspondence,
          proved: it returns n_sssr rings of the candidate stream.
    What is NOT a theorem: that the implementation's sssr IS accepted / minimum for every molecule (false: recorded gap
-   families; every output is run through the checker and the certificate instead), numbering-independence of the ring-size
-   multiset (follows per input from the certificate), "in_ring <-> lies on a cycle" (search against a bridge finder);
+   families; every output is run through the checker and the certificate instead), numbering / insertion-order independence of
+   sssr's ring sizes in general (it is a theorem for minimum cycle bases, hence holds for every certified pair of molecules), "in_ring <-> lies on a cycle" (search against a bridge finder);
    _bfs/_make_pid/_c_set are not modelled. *)
 From Coq Require Import ZArith List Bool Permutation.
 From Model Require Import PyBase Graph Rings RingsFilter.
-From Proofs Require Import RingsProofs RingsMcb RingsRank RingsExt RingsDim RingsFund RingsMin RingsHorton RingsSizes RingsFilterProofs.
+From Proofs Require Import RingsProofs RingsMcb RingsRank RingsExt RingsDim RingsFund RingsMin RingsHorton RingsSizes RingsIso RingsEquiv RingsFilterProofs.
 Import ListNotations.
 Open Scope Z_scope.
 
@@ -213,6 +213,59 @@ Theorem C06_minimum_bases_same_sizes : forall g rs rs', is_cycle_basis g rs = tr
   isort (map (@length Z) rs) = isort (map (@length Z) rs').
 Proof. exact minimum_bases_same_sizes. Qed.
 Print Assumptions C06_minimum_bases_same_sizes.
+
+(* NUMBERING INDEPENDENCE.  For a renumbering pi (with inverse rho): bonds - atoms + components is unchanged, a cycle basis
+   is mapped to a cycle basis, the minimum total size is unchanged, and a minimum cycle basis of the molecule and a minimum
+   cycle basis of the renumbered molecule have the same ring sizes *)
+Theorem C06_cyclomatic_rename : forall pi, (forall a b, pi a = pi b -> a = b) -> forall g, gwf g ->
+  cyclomatic (rename pi g) = cyclomatic g.
+Proof. exact rn_cyclomatic. Qed.
+Print Assumptions C06_cyclomatic_rename.
+
+Theorem C06_basis_rename : forall pi, (forall a b, pi a = pi b -> a = b) -> forall g rs,
+  is_cycle_basis g rs = true -> is_cycle_basis (rename pi g) (map (map pi) rs) = true.
+Proof. exact basis_rename. Qed.
+Print Assumptions C06_basis_rename.
+
+Theorem C06_mcb_total_rename : forall pi rho, (forall a, rho (pi a) = a) -> (forall a, pi (rho a) = a) -> forall g, gwf g ->
+  total_size (mcb_ref (rename pi g)) = total_size (mcb_ref g).
+Proof. exact mcb_total_rename. Qed.
+Print Assumptions C06_mcb_total_rename.
+
+Theorem C06_minimum_sizes_numbering_independent : forall pi rho, (forall a, rho (pi a) = a) -> (forall a, pi (rho a) = a) ->
+  forall g rs rs',
+  is_cycle_basis g rs = true -> total_size rs = total_size (mcb_ref g) ->
+  is_cycle_basis (rename pi g) rs' = true -> total_size rs' = total_size (mcb_ref (rename pi g)) ->
+  isort (map (@length Z) rs) = isort (map (@length Z) rs').
+Proof. exact minimum_sizes_numbering_independent. Qed.
+Print Assumptions C06_minimum_sizes_numbering_independent.
+
+(* INSERTION ORDER INDEPENDENCE.  Two well-formed adjacency lists with the same atoms and the same neighbour sets, in any
+   order of entries and neighbours (gequiv), have the same cyclomatic number and the same cycle bases; combined with the
+   renumbering theorems: a minimum cycle basis of a molecule and a minimum cycle basis of the renumbered molecule, rebuilt in
+   any insertion order, have the same ring sizes *)
+Theorem C06_cyclomatic_equiv : forall g h, gwf g -> gwf h -> gequiv g h -> cyclomatic h = cyclomatic g.
+Proof. exact ge_cyclomatic. Qed.
+Print Assumptions C06_cyclomatic_equiv.
+
+Theorem C06_basis_equiv : forall g h rs, gwf h -> gequiv g h -> is_cycle_basis g rs = true -> is_cycle_basis h rs = true.
+Proof. exact basis_equiv. Qed.
+Print Assumptions C06_basis_equiv.
+
+Theorem C06_minimum_sizes_independent : forall pi rho g h rs rs',
+  (forall a, rho (pi a) = a) -> (forall a, pi (rho a) = a) -> gwf h -> gequiv (rename pi g) h ->
+  is_cycle_basis g rs = true -> total_size rs = total_size (mcb_ref g) ->
+  is_cycle_basis h rs' = true -> total_size rs' = total_size (mcb_ref h) ->
+  isort (map (@length Z) rs) = isort (map (@length Z) rs').
+Proof. exact minimum_sizes_independent. Qed.
+Print Assumptions C06_minimum_sizes_independent.
+
+Theorem C06_rename_example :
+  let pi := fun a => a + 10 in
+  is_cycle_basis (rename pi ex_graph) [[11;12;13;14;15;16]; [13;14;15;16;17;18]] = true /\
+  cyclomatic (rename pi ex_graph) = 2 /\ map (@length Z) (mcb_ref (rename pi ex_graph)) = [6; 6]%nat.
+Proof. exact ex_rename. Qed.
+Print Assumptions C06_rename_example.
 
 Theorem C06_minimum_example : is_cycle_basis cage_7_12 (mcb_ref cage_7_12) = true /\ total_size (mcb_ref cage_7_12) = 21 /\
   forall rs, is_cycle_basis cage_7_12 rs = true -> 21 <= total_size rs.
